@@ -177,6 +177,8 @@ def _run_path(m: Machine, ctx: Ctx, module, cls, fnode, contract, key, res, case
             res.errors.append(msg)
         return
     # ---- exit obligations
+    if contract.frame:
+        _frame_obligations(m, ctx, contract, key, env, model_vars)
     if outcome[0] == "return":
         res.outcomes["return"] = res.outcomes.get("return", 0) + 1
         rv = outcome[1]
@@ -243,6 +245,50 @@ def _run_path(m: Machine, ctx: Ctx, module, cls, fnode, contract, key, res, case
             if not is_init:
                 for j, cl in enumerate(invs):
                     ctx.oblige("%s:inv-on-raise.%s.%d" % (key, declared, j), "invariant", m.spec_bool(cl, env), note=cl, model_vars=model_vars)
+
+
+def _frame_obligations(m, ctx, contract, key, env, model_vars):
+    """frame=True: the `modifies` list is what callers havoc, so it must be complete.  For every heap field whose
+    array term differs from the entry heap: every PRE-EXISTING object (reference >= 0; objects created on the path are
+    negative) other than the bases named in `modifies` for that field still has its entry value.  `Cls.f[*]` entries
+    cover the whole field.  Holds on normal and exceptional exits (callers havoc `modifies` on both)."""
+    from .model import _mangle
+
+    covered_all = set()
+    bases: dict[str, list] = {}
+    for loc in contract.modifies:
+        if loc.endswith("[*]"):
+            cn, f = loc[:-3].split(".")
+            covered_all.add(f)
+            continue
+        node = ast.parse(loc, mode="eval").body
+        if not isinstance(node, ast.Attribute):
+            continue
+        saved = m.heap
+        m.heap = env.old_heap.copy()
+        try:
+            m.spec += 1
+            b = m.evalv(node.value, env.old)
+        finally:
+            m.spec -= 1
+            m.heap = saved
+        if isinstance(b.ty, TOpt):
+            b = sym.opt_val(b)
+        f = node.attr
+        if isinstance(b.ty, TRef) and f not in m.model(b.ty.cls).fields and env.cls is not None:
+            f = _mangle(f, env.cls.name)
+        bases.setdefault(f, []).append(b.t)
+    for (owner, f), new in list(m.heap.arrays.items()):
+        old = env.old_heap.arrays.get((owner, f))
+        if old is None:
+            _, ty = m.field(owner, f)
+            old = z3.Const("%s_%s.%s" % (m.heap.tag, owner, f), z3.ArraySort(z3.IntSort(), sym.sort_of(ty)))
+        if new.eq(old) or f in covered_all:
+            continue
+        r = z3.Const("frame_r", z3.IntSort())
+        excl = [r != b for b in bases.get(f, [])]
+        goal = z3.ForAll([r], z3.Implies(z3.And(r >= 0, *excl), z3.Select(new, r) == z3.Select(old, r)))
+        ctx.oblige("%s:frame.%s.%s" % (key, owner, f), "frame", goal, note="field %s.%s is written only on objects listed in modifies" % (owner, f), model_vars=model_vars)
 
 
 def _pre_bool(m, cond, env):
